@@ -85,7 +85,7 @@ def deep_copy_ds(ds):
 # ----------------------------------------------------------------------------------------------
 # radiometry / stereo pairs
 # ----------------------------------------------------------------------------------------------
-TEXTURES = ["random", "lowtex", "patches", "steps", "gradient", "extreme"]
+TEXTURES = ["random", "lowtex", "patches", "steps", "gradient", "extreme", "faint"]
 
 
 def texture(rng, rows, cols, kind):
@@ -114,6 +114,12 @@ def texture(rng, rows, cols, kind):
         return (im % 256).astype(np.float32)
     if kind == "extreme":
         return rng.choice(np.array([0.0, 4095.0, 1.0, 2048.0], np.float32), (rows, cols))
+    if kind == "faint":
+        # a faint texture (0..2 counts) on a high radiometric level: tiny but non-zero relative variance; half of the image
+        # carries an ordinary texture so that the scene still has a range
+        im = 3000.0 + rng.integers(0, 3, (rows, cols)).astype(np.float32)
+        im[:, : cols // 2] += rng.integers(0, 200, (rows, cols // 2)).astype(np.float32)
+        return im.astype(np.float32)
     raise ValueError(kind)
 
 
@@ -132,7 +138,9 @@ def stereo_pair(rng, rows, cols, kind="random", max_shift=3, noise=2, bands=1):
             # left(x) matches right(x + d)  => right(x') = left(x' - d)
             src = np.clip(cc - field[r], 0, cols - 1)
             right[r] = left[r, src]
-        if noise:
+        if noise and kind == "faint":
+            right += rng.integers(0, 2, (rows, cols)).astype(np.float32) * (np.arange(cols)[None, :] < cols // 2)
+        elif noise:
             right = right + rng.integers(-noise, noise + 1, right.shape)
             right = np.clip(right, 0, 4095)
         return left.astype(np.float32), right.astype(np.float32)
